@@ -405,7 +405,9 @@ match_virtual_override(const CPPFunctionType &other) const {
     return false;
   }
 
-  if (((_flags ^ other._flags) & ~(F_override | F_final)) != 0) {
+  // An overrider may add noexcept, and override / final are not part of the
+  // function's type at all.
+  if (((_flags ^ other._flags) & ~(F_override | F_final | F_noexcept)) != 0) {
     return false;
   }
 
